@@ -44,7 +44,8 @@ ASSUMPTIONS = [
     'side effects on the global generators are not judged (the property speaks about results only)']
 REQUIRED = ['entry:' + e for e in ENTRIES] + ['indep', 'gen', 'other:trunc', 'step:npseed', 'step:pyseed',
                                                'same_family_outputs', 'times:repeated', 'seed:numpy_int', 'pop:hetero_small_calls',
-                                               'pop:noncentered:gauss', 'pop:noncentered:lognorm', 'pop:trunc', 'pop:cov', 'partial_block']
+                                               'pop:noncentered:gauss', 'pop:noncentered:lognorm', 'pop:trunc', 'pop:cov', 'partial_block',
+                                               'em:negative_output']
 SEEDS = st.integers(0, 2 ** 31 - 2)
 GEN_ENTRIES = ('em', 'pop', 'pred', 'poppred', 'prior', 'post')
 DF_ENTRIES = ('prior', 'post', 'pam')
@@ -142,8 +143,13 @@ def _target(draw, entry):
     if entry == 'em':
         kind = draw(st.sampled_from(llbuild.EM_KINDS))
         fixed = draw(gen.subset(ref.EM_NPAR[kind], min_size=0)) if gen.chance(draw, 0.25) else None
-        return dict(kind=kind, fixed=fixed, sig=draw(gen.vec(gen.logu(0.05, 5.0), ref.EM_NPAR[kind])),
-                    ybar=gen.distinct(draw(gen.vec(gen.logu(0.2, 20.0), draw(st.integers(1, 4))))), ns=_ns(draw))
+        t = dict(kind=kind, fixed=fixed, sig=draw(gen.vec(gen.logu(0.05, 5.0), ref.EM_NPAR[kind])),
+                 ybar=gen.distinct(draw(gen.vec(gen.logu(0.2, 20.0), draw(st.integers(1, 4))))), ns=_ns(draw))
+        if kind != 'lognorm' and gen.chance(draw, 0.5):
+            # model outputs below zero (a change from baseline): every Gaussian-type error model admits them
+            flip = draw(gen.subset(len(t['ybar']), min_size=1))
+            t['ybar'] = [-v if i in flip else v for i, v in enumerate(t['ybar'])]
+        return t
     if entry == 'pop':
         n_ids = draw(st.integers(1, 4))
         pop = popgen.draw_pop(draw, n_ids, max_parts=3, max_dim=2, p_cov=0.3, p_red=0)
@@ -651,6 +657,9 @@ def classify(spec):
     ks = _kinds_of_outputs(spec)
     if len(ks) >= 2 and len(set(ks)) < len(ks):
         labs.append('same_family_outputs')
+    if spec['entry'] == 'em' and any(v < 0 for v in spec['target']['ybar']):
+        labs.append('em:negative_output')
+        labs.append('em:negative_output:' + spec['target']['kind'])
     if spec['entry'] == 'pop':
         for k in ('cov', 'comp', 'red'):
             if popgen.has(spec['target']['pop'], k):
